@@ -7,7 +7,7 @@ import (
 func c07(tier string) int {
 	arg := opsArg{Name: "c07", Init: []string{"now:100"}, RestartCheck: true}
 	ops := []string{
-		"reg:G1:temp", "reg:G2:temp", "reg:G1:G1", "reg:G1:srv", "reg:G2:G1", "reg:G1:temp:alt",
+		"reg:G1:temp", "reg:G2:temp", "reg:ZERO:temp", "reg:G1:G1", "reg:G1:srv", "reg:G2:G1", "reg:G1:temp:alt",
 		"auth:1:kA:1000:temp", "auth:1:kA:1000:G1", "auth:1:kA:1000:G2",
 		"sauth:S1:0:1:temp", "sauth:S1:0:1:G1", "sauth:S1:0:1:G2",
 		"migr:kA:G3:temp:G3", "migr:kA:G3:G1:G3", "migr:kA:G3:G2:G3", "migr:kA:G3:G1:G3:stale", "migr:kA:G3:G1:G3:staleserver",
